@@ -323,10 +323,12 @@ func (v *AVCDecoderConfigurationRecord) MarshalBinary() ([]byte, error) {
 	buf.WriteByte(byte(v.AVCProfileIndication))
 	buf.WriteByte(byte(v.profileCompatibility))
 	buf.WriteByte(byte(v.AVCLevelIndication))
-	buf.WriteByte(byte(v.LengthSizeMinusOne))
+	// bit(6) reserved = '111111'b, then lengthSizeMinusOne.
+	buf.WriteByte(byte(v.LengthSizeMinusOne&0x03) | 0xfc)
 
 	// numOfSequenceParameterSets
-	buf.WriteByte(byte(len(v.SequenceParameterSetNALUnits)))
+	// bit(3) reserved = '111'b, then numOfSequenceParameterSets.
+	buf.WriteByte(byte(len(v.SequenceParameterSetNALUnits)&0x1f) | 0xe0)
 	for _, sps := range v.SequenceParameterSetNALUnits {
 		b, err := sps.MarshalBinary()
 		if err != nil {
